@@ -248,7 +248,10 @@ impl<'a> Iterator for ExtDiagBlockIter<'a> {
     type Item = ExtDiagBlock<'a>;
 
     fn next(&mut self) -> Option<Self::Item> {
-        let raw_buffer = self.ext_diag.raw_diag_buffer().unwrap();
+        // No buffer attached: there are no extended diagnostics to iterate over.
+        let Some(raw_buffer) = self.ext_diag.raw_diag_buffer() else {
+            return None;
+        };
         if self.cursor >= raw_buffer.len() {
             return None;
         }
